@@ -167,3 +167,45 @@ def run(F, R):
         R.check(not bad, "R24.4", "files.push:independent-of-map/request-state", c.where(), "no guard of the push reads map / request",
                 "whether a file part is kept depends on the map / operations parts already received (guards at %s): a body that sends a file part before its map "
                 "entry loses that file (MissingFiles) although the same parts in another order bind" % ", ".join(bad))
+
+    R.rule("R24.5", "each limit is installed independently: the per-file limit (SizeLimit::per_field from max_file_size) is applied whenever max_file_size is set — "
+                    "no branch that guards it reads max_num_files (with an else-if chain a configuration that sets both options would lose the per-file limit)")
+    for c in pf:
+        x = c.body
+        bad = []
+        for sbb, t in x.switches():
+            if not x.dominates(sbb, c.bb) or t[1][0] not in ("c", "m"):
+                continue
+            succs = [s_ for s_ in x.succ(sbb) if not x.is_unreachable_block(s_)]
+            if all(c.bb in x.reachable(s_, avoid=[sbb]) or s_ == c.bb for s_ in succs):
+                continue
+            # the guard must let the call be reached whatever max_num_files is: flag guards that depend on it
+            if mentions(x, t[1], "max_num_files"):
+                # ...unless the edge that excludes the call is the one where max_file_size is None as well (a tuple match on both)
+                bad.append(sbb)
+        # path view: assuming the switch on max_num_files goes either way, per_field must stay reachable on both
+        reach_all = True
+        for sbb in bad:
+            for s_ in x.succ(sbb):
+                if x.is_unreachable_block(s_):
+                    continue
+                if c.bb not in x.reachable(s_, avoid=[sbb]) and s_ != c.bb:
+                    reach_all = False
+        R.check(not bad or reach_all, "R24.5", "per_field-limit-independent-of-max_num_files", c.where(), "per_field reachable whatever max_num_files is",
+                "whether SizeLimit::per_field is installed depends on max_num_files: with both options set the per-file limit is skipped and a single file larger than "
+                "max_file_size is accepted as long as the whole body fits max_file_size * max_num_files")
+    R.floor("R24.5", "per_field sites", len(pf), 1)
+
+    R.rule("R24.6", "a resolvable map path always binds: in Request::set_upload, once the variable path resolved (Some arm), the upload is pushed and the marker "
+                    "written on every path — no test of the placeholder's current value may skip it (the file would be dropped and the request still accepted)")
+    su_b = F.one(r"^async_graphql::request::\{impl#\d+\}::set_upload$", kind="fn")
+    pushes = [c for c in su_b.calls() if c.callee and re.search(r"vec::\{impl#\d+\}::push$", c.callee) and any(k == "field" and ".uploads" in x for k, x in trace(su_b, c.args[0])[0])]
+    vp = [c for c in su_b.calls() if c.callee and c.callee.endswith("::variable_path")]
+    ok6 = bool(pushes) and bool(vp)
+    for (sbb, place, adt, arms, other, vmap) in su_b.enum_switches(r"core::option::Option$"):
+        if vp and place and place[0] == vp[0].dest[0] and arms.get("Some") is not None:
+            skip = [e for e in su_b.exits() if e in su_b.reachable(arms["Some"], avoid=[p.bb for p in pushes])]
+            ok6 = ok6 and not skip
+    R.check(ok6, "R24.6", "set_upload:resolved-path-always-binds", su_b.where(), "uploads.push on every path after the path resolved",
+            "set_upload can return without recording the upload although the variable path resolved (e.g. when the placeholder is not null, or was already bound): "
+            "the file is silently dropped")
